@@ -2,7 +2,7 @@
 import re
 from engines import PanicScan, zero_test_edges, str_const, adaptor_chain, TRUNCATING_ADAPTORS, bool_polarity
 from prov import Prov, field_names, params_of
-from props.shared import arena_placeholder_skips
+from props.shared import arena_placeholder_skips, termid_display_width
 
 CLAIM = ("(PANIC) no panicking construct is reachable from the lookup entry points Ontology::{hpo, gene, gene_by_name, omim_disease, "
          "omim_disease_by_name, omim_diseases_by_name, orpha_disease}, OmimDiseaseFilter::next, HpoTerm::try_new, except two named exemptions; "
@@ -92,6 +92,15 @@ def run(ck, prog, ctx):
             continue
         ck.ob("TABLE", "slot/" + k, v == ref, "reserved placeholder count: %s = %s, Arena::default pushes %s placeholder(s)" % (k, v, ref))
     ck.floor("TABLE", "slot constants", len([v for v in consts.values() if v is not None]), 5)
+    # the id -> slot table has one entry for EVERY id of the id space: ids are the numbers of <width> decimal digits that
+    # `Display for HpoTermId` renders, so the table needs at least 10^width entries (Arena::insert indexes it unchecked)
+    W = termid_display_width(prog)
+    if dflt is not None:
+        sizes = [t.args[1].int_value() for _, t in dflt.calls() if t.callee.method == "resize" and len(t.args) >= 2 and "usize" in (t.callee.name or "") + (t.callee.def_args or "")]
+        if W is None or len(sizes) != 1 or sizes[0] is None:
+            ck.undecided("TABLE", "id-table/size", "size of the id -> slot table or the rendered width of an id not recognised", where=dflt.where())
+        else:
+            ck.ob("TABLE", "id-table/size", sizes[0] >= 10 ** W, "the id -> slot table has %d entries; the id space (ids of %d decimal digits) has %d members, the largest being %d%s" % (sizes[0], W, 10 ** W, 10 ** W - 1, "" if sizes[0] >= 10 ** W else ": ids from %d upward cannot be stored (Arena::insert indexes the table unchecked) or found" % sizes[0]), where=dflt.where())
 
     ol = prog.body("ontology::Ontology::len")
     if ol is not None:
